@@ -4,21 +4,21 @@ PROPS = {
     "C15": dict(custom="c15", floor=1000, layers=["tsan-c15", "miri-c15"]),
     "C16": dict(custom="c16", floor=100, exhaustive_thorough=False),
     "C18": dict(configs=["ring", "aws"], floor=100, needs_cli=True),
-    "C10": dict(configs=["ring", "aws"], configs_thorough=["ring", "aws", "ring-release"], floor=20000, abort_is_violation=True),
-    "C06": dict(configs=["ring", "aws"], floor=5000),
-    "C11": dict(configs=["ring", "aws"], floor=500),
+    "C10": dict(layers=['asan-c10', 'miri-import'], configs=["ring", "aws"], configs_thorough=["ring", "aws", "ring-release"], floor=20000, abort_is_violation=True),
+    "C06": dict(layers=['asan-c06'], configs=["ring", "aws"], floor=5000),
+    "C11": dict(layers=['valgrind-c11'], configs=["ring", "aws"], floor=500),
     "C14": dict(configs=["ring", "aws"], floor=500),
     "C19": dict(configs=["ring", "aws"], floor=500),
     "C12": dict(configs=["ring", "aws"], floor=500),
     "C03": dict(configs=["ring", "aws"], floor=500),
-    "C17": dict(configs=["ring", "aws"], floor=1000),
-    "C01": dict(configs=["ring", "aws"], floor=1000),
+    "C17": dict(layers=['miri-import'], configs=["ring", "aws"], floor=1000),
+    "C01": dict(layers=['valgrind-c01'], configs=["ring", "aws"], floor=1000),
     "C02": dict(configs=["ring", "aws"], floor=1000),
     "C04": dict(configs=["ring", "aws"], floor=1000),
     "C05": dict(configs=["ring", "aws"], floor=1000),
     "C07": dict(configs=["ring", "aws"], floor=1000),
     "C08": dict(configs=["ring", "aws"], floor=1000),
-    "C09": dict(configs=["ring"], configs_thorough=["ring", "aws"], floor=1000, exhaustive_thorough=False),
-    "C13": dict(configs=["ring"], configs_thorough=["ring", "aws"], floor=1000000, exhaustive_thorough=True),
-    "C20": dict(configs=["ring"], configs_thorough=["ring", "aws"], floor=100000, exhaustive_thorough=True),
+    "C09": dict(layers=['miri-c09'], configs=["ring"], configs_thorough=["ring", "aws"], floor=1000, exhaustive_thorough=False),
+    "C13": dict(layers=['miri-c13'], configs=["ring"], configs_thorough=["ring", "aws"], floor=1000000, exhaustive_thorough=True),
+    "C20": dict(layers=['miri-c20'], configs=["ring"], configs_thorough=["ring", "aws"], floor=100000, exhaustive_thorough=True),
 }
